@@ -1,7 +1,7 @@
 (* C13 property theorems.  Nothing but statements closed by `exact`, a pin, and
    Print Assumptions.  The driver parses this file's output. *)
 From ZV.Common Require Import Base.
-From ZV.C13 Require Import Model ProofsLeb ProofsZigzag ProofsSeq.
+From ZV.C13 Require Import Model ModelIO ModelReader ModelRun ProofsLeb ProofsZigzag ProofsSeq ProofsIO ProofsReader.
 Open Scope N_scope.
 
 (* decode (encode v ++ rest) = (v, |encode v|): for every u64 and every trailing bytes *)
@@ -60,3 +60,140 @@ Theorem group_varint_refuted :
   exists xs, Forall in_u64 xs /\ known_gv xs = true /\ dec_gv (enc_gv xs) <> Some xs.
 Proof. exact group_varint_refuted_proof. Qed.
 Print Assumptions group_varint_refuted.
+
+(* ---------- fixed-width integers of any width, both byte orders ---------- *)
+Theorem fixed_le_law :
+  forall (w : nat) v rest, v < 256 ^ N.of_nat w ->
+    dec_le w (enc_le w v ++ rest) = Some (v, nlen (enc_le w v)).
+Proof. exact fixed_le_law_proof. Qed.
+Print Assumptions fixed_le_law.
+
+Theorem fixed_be_law :
+  forall (w : nat) v rest, v < 256 ^ N.of_nat w ->
+    dec_be w (enc_be w v ++ rest) = Some (v, nlen (enc_be w v)).
+Proof. exact fixed_be_law_proof. Qed.
+Print Assumptions fixed_be_law.
+
+(* byte swap (to_be / from_be on a little-endian host) is an involution, and the big-endian
+   encoding is the little-endian encoding of the swapped value *)
+Theorem swap_involutive :
+  forall (w : nat) v, v < 256 ^ N.of_nat w -> swap_bytes w (swap_bytes w v) = v.
+Proof. exact swap_involutive_proof. Qed.
+Print Assumptions swap_involutive.
+
+Theorem be_is_le_of_swap : forall (w : nat) v, enc_be w v = enc_le w (swap_bytes w v).
+Proof. exact be_is_le_of_swap_proof. Qed.
+Print Assumptions be_is_le_of_swap.
+
+(* length-prefixed byte strings / strings *)
+Theorem blob_law :
+  forall b rest, nlen b < W64 -> dec_blob (enc_blob b ++ rest) = Some (b, nlen (enc_blob b)).
+Proof. exact blob_law_proof. Qed.
+Print Assumptions blob_law.
+
+(* combinators: any element codec obeying the law yields option / pair / u32-counted vector codecs obeying it *)
+Theorem option_law :
+  forall (A : Type) (P : A -> Prop) (enc : A -> list N) (dec : list N -> option (A * N)),
+    codec_law P enc dec -> codec_law (opt_P P) (enc_opt enc) (dec_opt dec).
+Proof. exact (@option_law_proof). Qed.
+Print Assumptions option_law.
+
+Theorem pair_law :
+  forall (A B : Type) (PA : A -> Prop) (ea : A -> list N) (da : list N -> option (A * N))
+         (PB : B -> Prop) (eb : B -> list N) (db : list N -> option (B * N)),
+    codec_law PA ea da -> codec_law PB eb db ->
+    codec_law (fun p => PA (fst p) /\ PB (snd p)) (enc_pair ea eb) (dec_pair da db).
+Proof. exact (@pair_law_proof). Qed.
+Print Assumptions pair_law.
+
+Theorem vec32_law :
+  forall (A : Type) (P : A -> Prop) (enc : A -> list N) (dec : list N -> option (A * N)),
+    codec_law P enc dec ->
+    codec_law (fun xs => Forall P xs /\ nlen xs < W32) (enc_vec32 enc) (dec_vec32 dec).
+Proof. exact (@vec32_law_proof). Qed.
+Print Assumptions vec32_law.
+
+(* versioned field: present exactly when the writing version is at least the field's `since`;
+   exactly its own bytes are consumed either way *)
+Theorem versioned_field_law :
+  forall (A : Type) (P : A -> Prop) (enc : A -> list N) (dec : list N -> option (A * N)),
+    codec_law P enc dec ->
+    forall (since cur : version) v rest, P v ->
+      dec_field dec (ver_le since cur) (enc_field enc (ver_le since cur) v ++ rest)
+      = Some (if ver_le since cur then Some v else None, nlen (enc_field enc (ver_le since cur) v)).
+Proof. exact versioned_field_law_proof. Qed.
+Print Assumptions versioned_field_law.
+
+(* Version's packed form: exact for 8-bit major/minor, lossy beyond (finding version_component_over_255) *)
+Theorem version_pack_law :
+  forall a b c, a < 256 -> b < 256 -> c < 65536 -> ver_unpack (ver_pack (a, b, c)) = (a, b, c).
+Proof. exact version_pack_law_proof. Qed.
+Print Assumptions version_pack_law.
+
+Theorem version_pack_refuted :
+  exists v, known_version_wide v = true /\ ver_unpack (ver_pack v) <> v.
+Proof. exact version_pack_refuted_proof. Qed.
+Print Assumptions version_pack_refuted.
+
+(* ---------- readers ---------- *)
+(* StreamBufferedReader: for every inner stream, every short-read limit of the inner reader, every
+   configuration (capacity, maximum, read-ahead, multiplier, bulk threshold, growth) and every history of
+   read / read_exact / read_byte / read_slice / ensure_buffered / read_simd / read_bulk / fill_buf / consume
+   operations of any sizes, the bytes handed out, concatenated, followed by what the reader still holds,
+   are the inner stream: nothing lost, duplicated or reordered across refills and buffer growth *)
+Theorem sbr_reads_concat :
+  forall (data : list N) (chunk c_max : N) (c_ra : bool) (c_mult c_bulk : N) (c_g15 : bool)
+         (ops : list (N * Z)) (st : sbr) (os : list obs) (st' : sbr),
+    forallb (fun p => sbr_streaming (fst p)) ops = true ->
+    run_ops (sbr_op data chunk c_max c_ra c_mult c_bulk c_g15) ops st = (os, st') ->
+    ~ In OErr os ->
+    sbr_stream data st = flat_map obs_consumed os ++ sbr_stream data st'.
+Proof. exact sbr_reads_concat_proof. Qed.
+Print Assumptions sbr_reads_concat.
+
+Theorem sbr_initial_stream : forall data cap, sbr_stream data (sbr_init cap) = data.
+Proof. exact sbr_initial. Qed.
+Print Assumptions sbr_initial_stream.
+
+(* a relative seek lands at (logical position + offset), the logical position being the inner
+   position minus the bytes still buffered *)
+Theorem sbr_seek_current :
+  forall (data : list N) (chunk c_max : N) (c_ra : bool) (c_mult c_bulk : N) (c_g15 : bool) a st p st',
+    sbr_op data chunk c_max c_ra c_mult c_bulk c_g15 10 a st = (OPos p, st') ->
+    Z.of_N p = (Z.of_N (s_ipos st) - Z.of_N (nlen (s_buf st)) + a)%Z /\
+    sbr_stream data st' = inner_rest data p.
+Proof. exact sbr_seek_cur_ok. Qed.
+Print Assumptions sbr_seek_current.
+
+(* RangeReader: for every history of read / read_exact / read_u8 / read_vec / skip / position operations
+   the chunks returned (and the chunks skipped, of the requested length) concatenate to the inner bytes of
+   the range, in order, followed by the part of the range not yet delivered *)
+Theorem range_reads_concat :
+  forall (data : list N) (chunk r_start r_end : N)
+         (ops : list (N * Z)) (st : rng) (os : list obs) (st' : rng),
+    rng_inv st -> forallb (fun p => rng_streaming (fst p)) ops = true ->
+    run_ops (rng_op data chunk r_start r_end) ops st = (os, st') -> ~ In OErr os ->
+    exists chs, explains ops os chs /\
+                rng_stream data r_end st = concat chs ++ rng_stream data r_end st'.
+Proof. exact range_reads_concat_proof. Qed.
+Print Assumptions range_reads_concat.
+
+Theorem range_initial_stream :
+  forall (data : list N) (r_start r_end : N),
+    rng_stream data r_end {| r_ipos := r_start; r_cur := r_start |}
+    = take (r_end - r_start) (drop (N.min r_start (nlen data)) data).
+Proof. exact rng_initial. Qed.
+Print Assumptions range_initial_stream.
+
+(* ZeroCopyReader: for every history of read / read_exact / peek / zc_ensure / zc_read+advance /
+   read_optimized / skip_bytes operations without an error outcome, every capacity and every short-read
+   behaviour of the inner reader, the chunks returned (and skipped) concatenate to the inner stream *)
+Theorem zc_reads_concat :
+  forall (data : list N) (chunk z_cap : N)
+         (ops : list (N * Z)) (st : zc) (os : list obs) (st' : zc),
+    forallb (fun p => zc_streaming (fst p)) ops = true ->
+    run_ops (zc_op data chunk z_cap) ops st = (os, st') -> ~ In OErr os ->
+    exists chs, explains ops os chs /\
+                zc_stream data st = concat chs ++ zc_stream data st'.
+Proof. exact zc_reads_concat_proof. Qed.
+Print Assumptions zc_reads_concat.
